@@ -177,6 +177,15 @@ pub fn stream(out: &mut Out, seed: u64, thorough: bool) {
         cfg.xtol = 1e-10;
         cfg.gtol = 1e-10;
         cfg.patience = 20;
+        // one scenario in three (never the corpus scenario b = 0): tolerances ZERO - such a fit can only end
+        // with NoImprovementPossible or LostPatience (both unsuccessful), typically right after a rejected
+        // trial, i.e. with a final re-application of the accepted parameters (round 13)
+        if b % 3 == 1 {
+            cfg.ftol = 0.0;
+            cfg.xtol = 0.0;
+            cfg.gtol = 0.0;
+            cfg.patience = 60;
+        }
         let sc = Scenario { base: fc.base, cfg, with_stats: b % 2 == 0 && b != 0 };
         let (k, marks) = run_scenario::<f64>(None, &sc, usize::MAX, usize::MAX, "dry=1");
         let kmax = if thorough { k } else { k.min(80) };
